@@ -24,10 +24,12 @@
 (*                                                                              *)
 (* A case (JSON): T, T2 = step limits of the recording and of the replay, D =     *)
 (* number of values a draw can take, stop = the draw value on which the behaviour *)
-(* terminates (-1: never), chk = recorded with divergence data, tol4 = 4 x the    *)
-(* tolerance, cont = continueAfterDivergence, pert = <<s, kind, d>>: at update s   *)
-(* the simulator of the replay reports one dynamic property off by d (kind        *)
-(* "scalar": d = <<4 x delta>>, "vector": d = 4 x the difference vector, "none"),  *)
+(* terminates (-1: never), chk = recorded with divergence data, tol4 = the         *)
+(* tolerance in abstract units (a unit is 1/4, or 1e-9 when nano = 1), cont =      *)
+(* continueAfterDivergence, pert = <<s, kind, d>>: at update s the simulator of    *)
+(* the replay reports one dynamic property off by d units (kind "scalar": d =      *)
+(* <<n, u, 0>> = n units + u ulps, "vector": d = the difference vector, "none"),   *)
+(* base = the recorded value of that property (whole real units; opaque here),    *)
 (* rec = recorded draws fixed by the case (<<>>: every sequence), cut = number of  *)
 (* recorded fields handed to the replay (-1: all; only without divergence data).  *)
 (* Draws are indices 0..D-1; all run-time randomness is nondeterminism here.      *)
@@ -43,22 +45,39 @@ C == Cases[cid]
 Limit == IF run = "rec" THEN C.T ELSE C.T2
 
 \* ------------------------------------------------------------------ divergence verdicts
+\* Tolerance and difference are in ABSTRACT units (the harness realises a unit as 1/4 or as
+\* 1e-9).  A scalar difference is d = <<n, u, 0>>: n units plus u in {-1, 0, 1} "ulps", an
+\* amount smaller than every unit (the neighbouring floating-point number).  The recorded
+\* value itself (c.base, in whole real units: 0, +-1, +-1000, +-10^6) is a parameter of the case
+\* that the criterion must NOT depend on (BaseIndependent below).
 Abs(x) == IF x < 0 THEN -x ELSE x
 Norm2(d) == d[1] * d[1] + d[2] * d[2] + d[3] * d[3]
-\* the documented criterion: distance greater than the tolerance, either direction
+Sgn(n, u) == IF n > 0 THEN 1 ELSE IF n < 0 THEN -1 ELSE IF u > 0 THEN 1 ELSE IF u < 0 THEN -1 ELSE 0
+MagGt(n, u, tol) == LET s == Sgn(n, u) IN s # 0 /\ (s * n > tol \/ (s * n = tol /\ s * u > 0))
+SignedGt(n, u, tol) == n > tol \/ (n = tol /\ u > 0)
+\* the documented criterion: distance greater than the tolerance, either direction, whatever the value
 Diverged(kind, d, tol4) ==
-  CASE kind = "scalar" -> Abs(d[1]) > tol4
+  CASE kind = "scalar" -> MagGt(d[1], d[2], tol4)
     [] kind = "vector" -> Norm2(d) > tol4 * tol4
     [] OTHER -> FALSE
-\* AS IMPLEMENTED (Simulation.valuesHaveDiverged): diff = actual - expected; diff > tol
+\* AS IMPLEMENTED before the fix (Simulation.valuesHaveDiverged): diff = actual - expected; diff > tol
 DivergedAsImplemented(kind, d, tol4) ==
-  CASE kind = "scalar" -> d[1] > tol4
+  CASE kind = "scalar" -> SignedGt(d[1], d[2], tol4)
     [] kind = "vector" -> Norm2(d) > tol4 * tol4
     [] OTHER -> FALSE
-\* trigger predicate of the known finding "divergence-negative"
-NegativeTrigger(c) == c.pert[2] = "scalar" /\ c.pert[3][1] < 0 /\ -c.pert[3][1] > c.tol4 /\ c.chk = 1
-Verdict(c, s) == IF s = "ideal" THEN Diverged(c.pert[2], c.pert[3], c.tol4)
+\* a NON-conforming criterion kept for contrast (math.isclose with its default relative
+\* tolerance 1e-9): with nano units the threshold becomes max(tol, |base|) units
+DivergedRelative(kind, d, tol4, base) ==
+  CASE kind = "scalar" -> MagGt(d[1], d[2], IF Abs(base) > tol4 THEN Abs(base) ELSE tol4)
+    [] kind = "vector" -> Norm2(d) > tol4 * tol4
+    [] OTHER -> FALSE
+\* trigger predicate of the (now fixed) known finding "divergence-negative"
+NegativeTrigger(c) == c.pert[2] = "scalar" /\ Sgn(c.pert[3][1], c.pert[3][2]) < 0
+                      /\ MagGt(c.pert[3][1], c.pert[3][2], c.tol4) /\ c.chk = 1
+CaseVerdict(c) == Diverged(c.pert[2], c.pert[3], c.tol4)
+Verdict(c, s) == IF s = "ideal" THEN CaseVerdict(c)
                  ELSE DivergedAsImplemented(c.pert[2], c.pert[3], c.tol4)
+Bases == {0, 1, -1, 1000, -1000, 1000000, -1000000}
 
 \* ------------------------------------------------------------------ the machine
 Init == /\ cid \in 1..NC
@@ -138,7 +157,7 @@ IsPrefix(a, b) == Len(a) <= Len(b) /\ \A i \in 1..Len(a) : a[i] = b[i]
 NDraws(s) == Cardinality({i \in 1..Len(s) : s[i][1] = "draw"})
 Uncut == C.cut < 0
 Perturbed == C.pert[2] # "none" /\ C.chk = 1 /\ C.pert[1] <= Len(recActs) /\ Uncut
-ShouldDiverge == Perturbed /\ Diverged(C.pert[2], C.pert[3], C.tol4)
+ShouldDiverge == Perturbed /\ CaseVerdict(C)
 
 TypeOK == /\ run \in {"rec", "rep"} /\ pc \in {"update", "loop", "done"}
           /\ t \in 0..(C.T2 + 1) /\ rp \in 1..(Len(stream) + 1)
@@ -171,10 +190,23 @@ DivergenceDetectedBothSigns ==
            /\ (Len(acts) > C.pert[1] => Len(fresh) >= 1)
      /\ diverged => Len(acts) = C.pert[1]
 \* the as-implemented criterion differs from the documented one exactly on the trigger
+AtStart == run = "rec" /\ pc = "update" /\ t = 0 /\ stream = <<>>     \* each case once
 DeviationExplained ==
-  \A c \in 1..NC : LET k == Cases[c] IN
+  AtStart => LET k == C IN
      (Diverged(k.pert[2], k.pert[3], k.tol4) # DivergedAsImplemented(k.pert[2], k.pert[3], k.tol4))
-        <=> (k.pert[2] = "scalar" /\ k.pert[3][1] < 0 /\ -k.pert[3][1] > k.tol4)
+        <=> (k.pert[2] = "scalar" /\ Sgn(k.pert[3][1], k.pert[3][2]) < 0 /\ MagGt(k.pert[3][1], k.pert[3][2], k.tol4))
+\* LEMMA: the verdict of a case depends on (kind, difference, tolerance) only -- replacing the
+\* recorded value by any other base value never changes it
+BaseIndependent ==
+  AtStart => \A b \in Bases : CaseVerdict([C EXCEPT !.base = b]) = CaseVerdict(C)
+\* ... and the batch of cases is able to tell: it contains, for a nonzero base, differences
+\* above the tolerance that a magnitude-relative criterion would swallow, of both signs
+\* (evaluated only when the batch has cases in nano units: nano = 1)
+Discriminating ==
+  (AtStart /\ cid = 1 /\ \E c \in 1..NC : Cases[c].nano = 1) =>
+     \A sg \in {-1, 1} : \E c \in 1..NC : LET k == Cases[c] IN
+        /\ k.nano = 1 /\ k.pert[2] = "scalar" /\ k.base # 0 /\ Sgn(k.pert[3][1], k.pert[3][2]) = sg
+        /\ CaseVerdict(k) /\ ~DivergedRelative(k.pert[2], k.pert[3], k.tol4, k.base)
 \* recording and replay stay in step: when nothing diverges every recorded field is consumed
 StreamConsumed ==
   (Finished /\ sem = "ideal" /\ ~ShouldDiverge /\ C.T2 >= C.T /\ term # "DivergenceError") =>
